@@ -292,8 +292,16 @@ def run_job(job):
         else:
             r.inconclusive = "workload died with signal %d in %s" % (sig, job.label)
     elif r.rc not in job.expect_rc and not r.viols:
-        # rc 1 is used by engines to say "violations emitted"; anything else without a record is a harness problem
-        r.inconclusive = "unexpected exit status %s from %s: %s" % (r.rc, job.label, (r.err or r.out)[-400:])
+        # rc 1 is used by engines to say "violations emitted"; anything else without a violation record is a harness
+        # problem -- unless the harness reported an unprovoked panic raised inside the library itself
+        pan = next((rec for rec in r.records if rec.get("t") == "panic" and "/repo/src/" in rec.get("loc", "")), None)
+        if pan and ("|" in pan.get("op", "") or job.crash_props):
+            props = pan["op"].split("|", 1)[0].split(",") if "|" in pan.get("op", "") else list(job.crash_props)
+            r.viols.append(dict(props=[x for x in props if x], oracle="panic", source="crash", detail=dict(record=pan),
+                                msg="the library panicked at %s outside every provoked-fault scope (%s): %s" % (
+                                    pan.get("loc"), pan.get("op", "").split("|", 1)[-1], pan.get("msg", "")[:200])))
+        else:
+            r.inconclusive = "unexpected exit status %s from %s: %s" % (r.rc, job.label, (r.err or r.out)[-400:])
     return r
 
 
